@@ -59,6 +59,11 @@
 (*                      declarative data-flow (each consumer reads the     *)
 (*                      last writer listed before it, else the input;      *)
 (*                      each name ends with the value of its last writer)  *)
+(*   RawTheorem         the composite returns what its members return when *)
+(*                      the user executes them himself on D, provided the  *)
+(*                      defaults are coherent (DefaultsCoherent); without  *)
+(*                      this hypothesis it is not an invariant             *)
+(*                      (RawAlwaysAgrees: TLC gives a counterexample)      *)
 (*   NestAssoc          grouping consecutive members of an MDOChain in an  *)
 (*                      inner MDOChain changes neither the grammar (names, *)
 (*                      required names, defaults) nor any execution        *)
@@ -242,6 +247,16 @@ Exec(ds, c, D) ==                   \* composite.execute(D); at = 0 and not ok: 
   LET P == Prepare(c.g, D) IN
   IF ~Accepts(c.g, P) THEN Fail(0) ELSE SubRun(ds, c.kind, P)
 
+(* the user executes the members himself on D, without the composite: one after the other on the
+   propagated data (chain), or each of them on D (parallel); no completion by the composite's defaults *)
+RawRun(ds, kind, D) == IF kind = "chain" THEN ChainRunR(ds, 1, N, D, <<>>) ELSE ParRun(ds, D)
+OutsOf(ds, r) == Restrict(r.data, UNION {ds[k].outs : k \in K})
+RawView(ds, kind, D) == LET q == RawRun(ds, kind, D) IN [ok |-> q.ok, outs |-> IF q.ok THEN OutsOf(ds, q) ELSE EmptyF]
+RawAgree(ds, c, D) ==
+  LET r == Exec(ds, c, D)
+      q == RawView(ds, c.kind, D) IN
+  r.ok = q.ok /\ (r.ok => OutsOf(ds, r) = q.outs)
+
 (* an MDOChain whose members lo..hi are grouped in an inner MDOChain:
      MDOChain([d_1, .., d_(lo-1), MDOChain([d_lo, .., d_hi]), d_(hi+1), .., d_N])                     *)
 InnerG(ds, lo, hi) == BuildV(Views(ds, lo, hi), "chain")
@@ -318,7 +333,9 @@ Accessors(ds, r) ==      \* get_input_data / get_output_data(with_namespaces=Fal
   IF ~r.ok THEN <<>>
   ELSE [k \in K |-> [inb  |-> Strip(Restrict(r.steps[k], ds[k].ins)),
                      outb |-> Strip(Restrict(r.steps[k], ds[k].outs))]]
-Execs(ds, c) == {LET r == Exec(ds, c, D) IN [D |-> D, r |-> r, acc |-> Accessors(ds, r)] : D \in DataChoices(ds, c)}
+Execs(ds, c) == {LET r == Exec(ds, c, D) IN
+                 [D |-> D, r |-> r, acc |-> Accessors(ds, r), raw |-> RawView(ds, c.kind, D),
+                  rawsame |-> RawAgree(ds, c, D)] : D \in DataChoices(ds, c)}
 
 Build(kind) ==
   /\ chain.kind = "none"
@@ -426,6 +443,22 @@ RunIsDataFlow ==
                      /\ \A k \in K : /\ Restrict(r.steps[k], discs[k].outs) = DOut(discs, chain.kind, Completed(D), k)
                                      /\ Restrict(r.steps[k], discs[k].ins \ discs[k].outs)
                                           = Restrict(DSeen(discs, chain.kind, Completed(D), k), discs[k].ins \ discs[k].outs)
+
+(* The composite completes D with ITS defaults (for a name: the default of the last member that declares
+   one) before any member runs.  It therefore returns what the members return when executed by hand on D
+   if, for every name with a default, the member that would supply it by hand supplies the same value:
+   the first consumer in an MDOChain (what it returns is propagated), every consumer in a parallel chain. *)
+Consumers(ds, kind, f) == {k \in K : f \in ds[k].ins \ Before(ds, kind, k)}
+DefaultsCoherent(ds, kind, g) ==
+  \A f \in DOMAIN g.dflt :
+    \A k \in Consumers(ds, kind, f) :
+      (kind = "parallel" \/ \A j \in Consumers(ds, kind, f) : k <= j) =>
+        (f \in DOMAIN ds[k].dflt /\ ds[k].dflt[f] = g.dflt[f])
+RawTheorem ==
+  (Built /\ DefaultsCoherent(discs, chain.kind, chain.g)) => \A D \in AllData : RawAgree(discs, chain, D)
+(* NOT an invariant (TLC shows a counterexample: two members with different defaults for a shared input):
+   "executing the composite = executing its members by hand" without the hypothesis on the defaults *)
+RawAlwaysAgrees == Built => \A D \in AllData : RawAgree(discs, chain, D)
 
 Core(g) == [ins |-> g.ins, req |-> g.req, dflt |-> g.dflt, outs |-> g.outs]
 NestAssoc ==        \* grouping consecutive members of an MDOChain in an inner MDOChain changes nothing
